@@ -606,6 +606,93 @@ func ruleDeferProtocol(c *Ctx, rule string) {
 	if nloops < 2 {
 		c.Ob(rule, "fast.reExecWithFlags/install", fd, false, "fewer than two SigDefer installation loops found: anchor missing")
 	}
+	// the single-step loop executes statements too: a SigDefer raised by a stepped `defer` statement must be
+	// forwarded to an installation loop (goto a label that precedes one), not treated like SigReturn or dropped
+	var installPos []token.Pos
+	ast.Inspect(fd.Body, func(n ast.Node) bool {
+		if fs, ok := n.(*ast.ForStmt); ok && fs.Cond != nil {
+			if b, ok := unparen(fs.Cond).(*ast.BinaryExpr); ok && b.Op == token.EQL && objQName(usedObj(info, b.Y)) == "base.SigDefer" {
+				installPos = append(installPos, fs.Pos())
+			}
+		}
+		return true
+	})
+	labels := map[string]token.Pos{}
+	ast.Inspect(fd.Body, func(n ast.Node) bool {
+		if ls, ok := n.(*ast.LabeledStmt); ok {
+			labels[ls.Label.Name] = ls.Pos()
+		}
+		return true
+	})
+	ndbg := 0
+	ast.Inspect(fd.Body, func(n ast.Node) bool {
+		fs, ok := n.(*ast.ForStmt)
+		if !ok || fs.Cond == nil {
+			return true
+		}
+		b, ok := unparen(fs.Cond).(*ast.BinaryExpr)
+		if !ok || b.Op != token.NEQ {
+			return true
+		}
+		if _, isDbg := fieldSel(info, b.X, "Debug"); !isDbg {
+			return true
+		}
+		steps := false
+		inspectCalls(fs.Body, func(call *ast.CallExpr) {
+			if funcFullName(calleeOf(info, call)) == "fast.singleStep" {
+				steps = true
+			}
+		})
+		if !steps {
+			return true
+		}
+		ndbg++
+		di := buildDefIndex(info, fd)
+		forwards := false
+		ast.Inspect(fs.Body, func(m ast.Node) bool {
+			ifs, ok := m.(*ast.IfStmt)
+			if !ok || len(ifs.Body.List) != 1 {
+				return true
+			}
+			br, ok := ifs.Body.List[0].(*ast.BranchStmt)
+			if !ok || br.Tok != token.GOTO || br.Label == nil {
+				return true
+			}
+			for _, a := range orAtoms(ifs.Cond) {
+				be, ok := unparen(a).(*ast.BinaryExpr)
+				if !ok || be.Op != token.EQL || objQName(usedObj(info, be.Y)) != "base.SigDefer" {
+					continue
+				}
+				isSync := false
+				if _, ok := fieldSel(info, be.X, "Sync"); ok {
+					isSync = true
+				} else if id := identOf(be.X); id != nil {
+					for _, d := range di.defs[info.Uses[id]] {
+						if d != nil {
+							if _, ok := fieldSel(info, d, "Sync"); ok {
+								isSync = true
+							}
+						}
+					}
+				}
+				if !isSync {
+					continue
+				}
+				lp := labels[br.Label.Name]
+				for _, ip := range installPos {
+					if lp != token.NoPos && lp < ip && ip < fs.Pos() {
+						forwards = true
+					}
+				}
+			}
+			return true
+		})
+		c.Ob(rule, "fast.reExecWithFlags/single-step-forwards-defer", fs, forwards, "a SigDefer raised while single-stepping is forwarded (goto) to a region that installs the deferred function")
+		return true
+	})
+	if ndbg == 0 {
+		c.Ob(rule, "fast.reExecWithFlags/single-step-forwards-defer", fd, false, "single-step loop not found: anchor missing")
+	}
 	// Comp.Defer: eager evaluation and copies
 	df := c.P.Func("fast.Comp.Defer")
 	if df == nil {
